@@ -2,16 +2,27 @@
   C10 — the step-labelling lemma: one iteration of CoreVM's `slide` loop (`CoreVM.slideStep`) moves the head along an
   edge of the sliding graph `SlideGraph.Edge (classify cfg)` of its flow (`Models/SlideClassify.lean`).
 
+  Main results (all for head `(f, h)` with index data `hd` in state `s`, flow config `cfg`):
+    * `slideStep_moves_along_edge` — `slideStep fuel f h s = .ok (false, nh) s'` ⇒ in `s'` the head exists, has the same
+      status, the config is unchanged and `SlideGraph.Edge (classify cfg) hd.pos hd'.pos`.
+      Hypotheses: element not `EndScope`; on `MergeHeads` the head is ACTIVE; on `Abort` `CatchNamesOk`.
+    * `slideStep_stop_no_move` — `… = .ok (true, nh) s'` on a sliding kind ⇒ same position, same status.
+    * `slideStep_error_pos` — `… = .error (.py c m) s'` on a sliding kind with `hd.pos < size` ⇒ the head exists in `s'`,
+      same status, position `< size`.
+    * `slideStep_fork_merge_stops` — `ForkHead`, and `MergeHeads` on an ACTIVE head, always return `stop = true`.
+    * `slideStep_lands` — the common source of the first three (`LandsR`), every kind except fork / merge / endScope.
+    * `setHeadPos_spec`, `setHeadPos_ok_pos` — the position setter.
+    * `keeps_*`, `*_ixs` — look-ups, non-index writes and the evaluation functions (`evalIn`, `evalArgs`, `getEvent`,
+      `getEventName`, …) leave the index component, the program and every instance's flow id alone.
+
   Structure of the file
-    1. `Frame` / `Keeps`: "this statement leaves the index component, the program and every instance's flow id alone",
-       with combinators (`bind`, `forIn`, `mapM`, `tryCatch`, …) and the tactic `keeps`; proved for every look-up and
-       every non-index write used by `slideStep`, and for the evaluation functions (`evalIn`, `evalArgs`, `getEvent`,
-       `getEventName`, …).
-    2. index writes: `applyOp_ok`, `step_setPos_head`, `attemptPy_run`, `nameFor`, `setHeadPos_spec`.
+    1. `Frame` / `Keeps` (definitions in the Models file): combinators (`bind`, `forIn`, `mapM`, `tryCatch`, …) and the
+       tactic `keeps`; proved for every look-up / non-index write used by `slideStep` and for the evaluation functions.
+    2. index writes: `applyOp_ok`, `step_setPos_head`, `attemptPy_run`, `nameFor_error_pos`, `setHeadPos_spec`.
     3. `Lands`: a Hoare-style specification "if head `k` (data `hd`) exists and the flow's config is `cfg`, then after a
        normal return the head exists, has the same status and its position satisfies `T`; after a Python exception the
        head exists and either did not move or sits on an element inside the flow"; rules and the tactic `lands`.
-    4. the theorems `slideStep_lands`, `slideStep_moves_along_edge`, `slideStep_error_pos`.
+    4. `slideStep_lands` (one `cases` on the element kind; each branch by `lands`), the always-stopping kinds, the theorems.
 -/
 import NemoVerif.Lemmas.CoreVM
 import NemoVerif.Lemmas.CoreIndex
@@ -20,25 +31,9 @@ import NemoVerif.Models.SlideClassify
 namespace NemoVerif.CoreVM
 open NemoVerif NemoVerif.CoreIndex
 
-/-- the state a run ends in (normal return or exception) -/
-def resSt {α : Type} : EStateM.Result VMErr VM α → VM
-  | .ok _ s => s
-  | .error _ s => s
-
-/-- what a statement that is not an index write leaves alone: the index component, the program, and the flow id of
-    every instance (all that `cfgOfInst` reads) -/
-structure Frame (s s' : VM) : Prop where
-  ixs : s'.ixs = s.ixs
-  prog : s'.r.prog = s.r.prog
-  ids : fxIds s'.r.fx = fxIds s.r.fx
-
 theorem Frame.refl (s : VM) : Frame s s := ⟨rfl, rfl, rfl⟩
 theorem Frame.trans {a b c : VM} (h1 : Frame a b) (h2 : Frame b c) : Frame a c :=
   ⟨h2.ixs.trans h1.ixs, h2.prog.trans h1.prog, h2.ids.trans h1.ids⟩
-
-/-- `x` never changes the index component, the program or an instance's flow id — whether it returns or raises -/
-structure Keeps {α : Type} (x : M α) : Prop where
-  frame : ∀ s, Frame s (resSt (x s))
 
 theorem Keeps.pure {α : Type} (a : α) : Keeps (EStateM.pure a : M α) := ⟨fun s => Frame.refl s⟩
 
@@ -310,9 +305,6 @@ macro_rules | `(tactic| keeps_known) => `(tactic| exact keeps_nameFor _ _ _)
 
 /-! ### the flow config of an instance as a pure function of the state -/
 
-/-- what `cfgOfInst f` returns, as a function of `Rest` -/
-def cfgOf (r : Rest) (f : FUid) : Option FlowCfg := (OMap.lookup f (fxIds r.fx)).bind r.prog.find
-
 theorem lookup_fxIds (f : FUid) (l : List (FUid × InstX)) :
     OMap.lookup f (fxIds l) = (OMap.lookup f l).map (·.flowId) := by
   induction l with
@@ -421,20 +413,6 @@ theorem nameFor_error_pos {s s1 : VM} {f : FUid} {p : Nat} {st : HeadStatus} {c 
 
 /-! ### `Lands`: where head `k` is after a statement -/
 
-/-- verdict on one run, for head `k` that had data `hd` in a state where the flow's config was `cfg`:
-    * normal return `a`: config unchanged, the head exists with the same status, and `T a (new position)`;
-    * Python exception: config unchanged, the head exists with the same status, and it either did not move or sits on
-      an element INSIDE the flow (it was moved onto a match element whose name evaluation raised);
-    * model-level stops (`outOfFuel`, `unsupported`, `guardFailed`): nothing is claimed. -/
-def LandsR {α : Type} (k : Key) (cfg : FlowCfg) (hd : Head) (T : α → Nat → Prop) : EStateM.Result VMErr VM α → Prop
-  | .ok a s' => cfgOf s'.r k.1 = some cfg ∧ ∃ hd', headOf s' k = some hd' ∧ hd'.status = hd.status ∧ T a hd'.pos
-  | .error (.py _ _) s' => cfgOf s'.r k.1 = some cfg ∧
-      ∃ hd', headOf s' k = some hd' ∧ hd'.status = hd.status ∧ (hd'.pos = hd.pos ∨ hd'.pos < cfg.elements.size)
-  | .error _ _ => True
-
-structure Lands {α : Type} (k : Key) (cfg : FlowCfg) (hd : Head) (T : α → Nat → Prop) (x : M α) : Prop where
-  run : ∀ s, cfgOf s.r k.1 = some cfg → headOf s k = some hd → LandsR k cfg hd T (x s)
-
 /-- statements that keep the config and the data of head `k` (weaker than `Keeps`: `setFlowStatus` qualifies) -/
 structure Pres {α : Type} (k : Key) (cfg : FlowCfg) (hd : Head) (x : M α) : Prop where
   run : ∀ s, cfgOf s.r k.1 = some cfg → headOf s k = some hd →
@@ -540,6 +518,61 @@ theorem setHeadPos_spec {k : Key} {cfg : FlowCfg} {hd : Head} (p : Nat) :
         · unfold headOf; rw [hix]; exact step_setPos_head _ _ _ _ _ _ hh1 hp
       | _ => trivial
 
+/-! ### none of these touches the index component (corollaries of `Keeps`) -/
+
+theorem modifyRest_ixs (g : Rest → Rest) (s : VM) : (resSt (modifyRest g s)).ixs = s.ixs := rfl
+theorem modInstX_ixs (f : FUid) (g : InstX → InstX) (s : VM) : (resSt (modInstX f g s)).ixs = s.ixs := rfl
+theorem modHeadX_ixs (k : Key) (g : HeadX → HeadX) (s : VM) : (resSt (modHeadX k g s)).ixs = s.ixs := rfl
+theorem pushEvent_ixs (e : Event) (s : VM) : (resSt (pushEvent e s)).ixs = s.ixs := rfl
+theorem setAction_ixs (a : Action) (s : VM) : (resSt (setAction a s)).ixs = s.ixs := rfl
+theorem freshUid_ixs (s : VM) : (resSt (freshUid s)).ixs = s.ixs := (keeps_freshUid.frame s).ixs
+theorem setCtxVar_ixs (f : FUid) (k : String) (v : Val) (s : VM) : (resSt (setCtxVar f k v s)).ixs = s.ixs :=
+  ((keeps_setCtxVar f k v).frame s).ixs
+theorem evalIn_ixs (f : FUid) (e : Expr) (s : VM) : (resSt (evalIn f e s)).ixs = s.ixs := ((keeps_evalIn f e).frame s).ixs
+theorem evalArgs_ixs (f : FUid) (args : List (String × Expr)) (s : VM) : (resSt (evalArgs f args s)).ixs = s.ixs :=
+  ((keeps_evalArgs f args).frame s).ixs
+theorem getEvent_ixs (f : FUid) (spec : Spec) (b : Bool) (s : VM) : (resSt (getEvent f spec b s)).ixs = s.ixs :=
+  ((keeps_getEvent f spec b).frame s).ixs
+theorem getEventName_ixs (f : FUid) (spec : Spec) (s : VM) : (resSt (getEventName f spec s)).ixs = s.ixs :=
+  ((keeps_getEventName f spec).frame s).ixs
+
+/-- **`head.position = p`, normal return**: the head's data afterwards is the old data with the new position and the
+    ghost `elem` the callback computed; uid and status are untouched. -/
+theorem setHeadPos_ok_pos {k : Key} {p : Nat} {s s' : VM} {hd : Head}
+    (hh : headOf s k = some hd) (hrun : setHeadPos k p s = .ok () s') :
+    ∃ nm, headOf s' k = some { hd with pos := p, elem := nm } := by
+  unfold setHeadPos at hrun
+  simp only [bind, EStateM.bind, getHead?_run, hh] at hrun
+  by_cases hp : hd.pos = p
+  · rw [if_pos hp] at hrun
+    cases hrun
+    exact ⟨hd.elem, by rw [hh, ← hp]⟩
+  · rw [if_neg hp] at hrun
+    simp only [EStateM.bind, attemptPy_run] at hrun
+    have hfr := (keeps_nameFor k.1 p hd.status).frame s
+    cases hn : nameFor k.1 p hd.status s with
+    | ok nm s1 =>
+      rw [hn] at hfr hrun
+      change Frame s s1 at hfr
+      simp only at hrun
+      have hh1 : headOf s1 k = some hd := by rw [hfr.headOf]; exact hh
+      have hg : (Op.setPos k.1 k.2 p nm).guard s1.ixs.ix = true := by
+        unfold headOf at hh1
+        simp only [Op.guard, hh1, Option.isSome]
+      obtain ⟨s2, h2, hix, _⟩ := applyOp_ok _ s1 hg
+      rw [h2] at hrun
+      cases hrun
+      exact ⟨nm, by unfold headOf; rw [hix]; exact step_setPos_head _ _ _ _ _ _ hh1 hp⟩
+    | error e s1 =>
+      rw [hn] at hrun
+      cases e with
+      | py c m =>
+        simp only at hrun
+        obtain ⟨_, s2, _, h3⟩ := bind_ok hrun
+        cases h3
+      | _ => cases hrun
+
+
 /-- the usual end of a sliding branch: `head.position = p`, then the loop goes on -/
 theorem Lands.setHeadPos_pure {β : Type} {k : Key} {cfg : FlowCfg} {hd : Head} {T : β → Nat → Prop} (p : Nat) (b : β)
     (hT : T b p) : Lands k cfg hd T (EStateM.bind (setHeadPos k p) fun _ => EStateM.pure b) := by
@@ -556,9 +589,9 @@ theorem Lands.setHeadPos_pure {β : Type} {k : Key} {cfg : FlowCfg} {hd : Head} 
     cases e <;> exact h1
 
 theorem Lands.pure_stop {k : Key} {cfg : FlowCfg} {hd : Head} {P : Nat → Prop} (nh : List Key) :
-    Lands k cfg hd (fun (a : Bool × List Key) q => a.1 = false → P q) (EStateM.pure (true, nh)) :=
-  Lands.pure _ (by intro h; cases h)
-
+    Lands k cfg hd (fun (a : Bool × List Key) q => (a.1 = false → P q) ∧ (a.1 = true → q = hd.pos))
+      (EStateM.pure (true, nh)) :=
+  Lands.pure _ ⟨fun h => (by cases h), fun _ => rfl⟩
 
 theorem Pres.bind {α β : Type} {k : Key} {cfg : FlowCfg} {hd : Head} {x : M α} {f : α → M β}
     (hx : Pres k cfg hd x) (hf : ∀ a, Pres k cfg hd (f a)) : Pres k cfg hd (EStateM.bind x f) := by
@@ -604,7 +637,8 @@ theorem Lands.bind_unsupported {α β : Type} {k : Key} {cfg : FlowCfg} {hd : He
   ⟨fun _ _ _ => trivial⟩
 
 /-- side conditions `… → Edge (classify cfg) u v` of the rules: with `succs (classify cfg) u = […]` among the hypotheses -/
-macro "lands_side" : tactic => `(tactic| (intros; simp only [SlideGraph.Edge]; simp [*]; done))
+macro "lands_side" : tactic =>
+  `(tactic| (refine ⟨?_, fun h => by cases h⟩; intros; simp only [SlideGraph.Edge]; simp [*]; done))
 
 macro "lands_step" : tactic => `(tactic| first
   | with_reducible_and_instances exact Lands.pure_stop _
@@ -652,19 +686,25 @@ theorem succs_classify (cfg : FlowCfg) (u : Nat) (hlt : u < cfg.elements.size) :
   cases e <;> try rfl
   all_goals (rename_i t; cases t <;> rfl)
 
-/-- element kinds for which one `slideStep` is "evaluate something, then `head.position = …`" -/
-def Prim.slides : Prim → Bool
-  | .fork _ _ => false
-  | .merge _ => false
-  | .endScope _ => false
-  | _ => true
+/-! ### one iteration of `slide` -/
+
+theorem landsR_bind_ok {α β : Type} {k : Key} {cfg : FlowCfg} {hd : Head} {T : β → Nat → Prop} {x : M α} {f : α → M β}
+    {s : VM} {a : α} (hx : x s = .ok a s) (h : LandsR k cfg hd T (f a s)) : LandsR k cfg hd T (EStateM.bind x f s) := by
+  unfold EStateM.bind
+  rw [hx]
+  exact h
 
 set_option maxHeartbeats 1000000 in
-theorem slideStep_lands_test (fuel : Nat) (f : FUid) (h : HUid) (cfg : FlowCfg) (hd : Head) (s : VM)
+/-- **One iteration of `slide`, every sliding element kind** (everything except `ForkHead`, `MergeHeads`, `EndScope`):
+    if the loop goes on the head has moved along an edge of the sliding graph, if it stops the head has not moved.
+    `C` is a side condition under which the catch-stack invariant holds for an `Abort` element (take `C := False` when
+    only the exception clause is wanted). -/
+theorem slideStep_lands (C : Prop) (fuel : Nat) (f : FUid) (h : HUid) (cfg : FlowCfg) (hd : Head) (s : VM)
     (hc : cfgOf s.r f = some cfg) (hh : headOf s (f, h) = some hd)
     (hk : (cfg.elements[hd.pos]!).slides = true)
-    (hcatch : cfg.elements[hd.pos]! = .abort → CatchNamesOk cfg ((OMap.lookup (f, h) s.r.hx).getD {})) :
-    LandsR (f, h) cfg hd (fun (a : Bool × List Key) q => a.1 = false → SlideGraph.Edge (classify cfg) hd.pos q)
+    (hcatch : C → cfg.elements[hd.pos]! = .abort → CatchNamesOk cfg ((OMap.lookup (f, h) s.r.hx).getD {})) :
+    LandsR (f, h) cfg hd
+      (fun (a : Bool × List Key) q => (a.1 = false → C → SlideGraph.Edge (classify cfg) hd.pos q) ∧ (a.1 = true → q = hd.pos))
       (slideStep fuel f h s) := by
   unfold slideStep
   simp only [bind, EStateM.bind, cfgOfInst_of_cfgOf hc]
@@ -680,9 +720,190 @@ theorem slideStep_lands_test (fuel : Nat) (f : FUid) (h : HUid) (cfg : FlowCfg) 
     generalize heq : cfg.elements[hd.pos]! = el at hs hk hcatch ⊢
     cases el
     all_goals (simp only [classifyPrim] at hs; dsimp only)
-    all_goals (refine Lands.run ?_ s hc hh)
-    all_goals (try (lands; done))
-    trace_state
-    all_goals sorry
+    case fork => cases hk
+    case merge => cases hk
+    case endScope => cases hk
+    case abort =>
+      have hgx : getHeadX (f, h) s = .ok ((OMap.lookup (f, h) s.r.hx).getD {}) s := rfl
+      refine landsR_bind_ok hgx ?_
+      generalize (OMap.lookup (f, h) s.r.hx).getD {} = hx at hcatch ⊢
+      cases hgl : hx.catchLabels.getLast? with
+      | none =>
+        dsimp only
+        refine Lands.run ?_ s hc hh
+        lands
+      | some l =>
+        dsimp only
+        refine Lands.run ?_ s hc hh
+        lands
+        rename_i t hlab
+        refine ⟨fun _ hC => ?_, fun hF => by cases hF⟩
+        have hcn := hcatch hC rfl
+        have hmem : l ∈ hx.catchLabels := List.mem_of_getLast? hgl
+        have h1 : SlideGraph.Elem.catchPush t ∈ classify cfg := by
+          have := List.mem_map_of_mem (f := classifyPrim cfg) (hcn l hmem)
+          simp only [classifyPrim, hlab, Option.getD] at this
+          exact this
+        have h2 : t ∈ SlideGraph.catchTargets (classify cfg) :=
+          List.mem_filterMap.mpr ⟨_, h1, rfl⟩
+        show _ ∈ _
+        rw [hs]
+        exact List.mem_cons_of_mem _ (List.mem_map_of_mem h2)
+    case goto =>
+      rename_i e l
+      cases hl : cfg.label l <;> simp only [hl] at hs <;> refine Lands.run ?_ s hc hh <;> lands
+    all_goals (refine Lands.run ?_ s hc hh; lands)
+
+/-! ### element kinds after which the loop always ends: `ForkHead`, `MergeHeads` on an ACTIVE head -/
+
+/-- every normal return of `x` says "stop" -/
+structure Stops (x : M (Bool × List Key)) : Prop where
+  run : ∀ s a s', x s = .ok a s' → a.1 = true
+
+theorem Stops.pure_true (nh : List Key) : Stops (EStateM.pure (true, nh)) :=
+  ⟨fun _ _ _ h => by cases h; rfl⟩
+
+theorem Stops.bind {α : Type} {x : M α} {f : α → M (Bool × List Key)} (hf : ∀ a, Stops (f a)) :
+    Stops (EStateM.bind x f) := by
+  refine ⟨fun s a s' h => ?_⟩
+  obtain ⟨b, s1, _, h2⟩ := bind_ok h
+  exact (hf b).run s1 a s' h2
+
+macro "stops" : tactic => `(tactic| repeat (first
+  | with_reducible_and_instances exact Stops.pure_true _
+  | with_reducible_and_instances refine Stops.bind ?_
+  | intro _))
+
+theorem slideStep_at_end (fuel : Nat) (f : FUid) (h : HUid) (cfg : FlowCfg) (hd : Head) (s : VM)
+    (hc : cfgOf s.r f = some cfg) (hh : headOf s (f, h) = some hd)
+    (hend : ¬ hd.pos < cfg.elements.size ∨ hd.status = .inactive) :
+    slideStep fuel f h s = .ok (true, []) s := by
+  unfold slideStep
+  simp only [bind, EStateM.bind, cfgOfInst_of_cfgOf hc]
+  simp only [getHead?_run, hh, pure]
+  have hnot : (decide (hd.pos ≥ cfg.elements.size) || decide (hd.status = HeadStatus.inactive)) = true := by
+    simp only [ge_iff_le, Bool.or_eq_true, decide_eq_true_eq]
+    cases hend with
+    | inl h1 => exact Or.inl (Nat.le_of_not_lt h1)
+    | inr h2 => exact Or.inr h2
+  rw [if_pos hnot]
+  rfl
+
+theorem slideStep_fork_merge_stops (fuel : Nat) (f : FUid) (h : HUid) (cfg : FlowCfg) (hd : Head) (s : VM)
+    (hc : cfgOf s.r f = some cfg) (hh : headOf s (f, h) = some hd)
+    (hel : (∃ u ls, cfg.elements[hd.pos]! = .fork u ls) ∨ (∃ u, cfg.elements[hd.pos]! = .merge u ∧ hd.status = .active))
+    (a : Bool × List Key) (s' : VM) (hrun : slideStep fuel f h s = .ok a s') : a.1 = true := by
+  revert hrun
+  unfold slideStep
+  simp only [bind, EStateM.bind, cfgOfInst_of_cfgOf hc]
+  simp only [getHead?_run, hh, pure]
+  by_cases hnot : (decide (hd.pos ≥ cfg.elements.size) || decide (hd.status = HeadStatus.inactive)) = true
+  · rw [if_pos hnot]
+    intro hrun; cases hrun; rfl
+  · rw [if_neg hnot]
+    cases hel with
+    | inl hf =>
+      obtain ⟨u, ls, heq⟩ := hf
+      rw [heq]
+      dsimp only
+      refine Stops.run ?_ s a s'
+      stops
+    | inr hm =>
+      obtain ⟨u, heq, hst⟩ := hm
+      rw [heq]
+      dsimp only
+      rw [if_pos hst]
+      refine Stops.run ?_ s a s'
+      stops
+
+/-! ### the theorems -/
+
+theorem elem_get_of_lt (cfg : FlowCfg) (u : Nat) (hlt : u < cfg.elements.size) :
+    cfg.elements[u]? = some cfg.elements[u]! := by
+  simp [hlt]
+
+/-- **Step labelling.**  A non-stopping iteration of CoreVM's `slide` loop for head `(f, h)` moves the head along an edge
+    of the sliding graph of its flow: afterwards the head still exists, has the same status, the flow's config is
+    unchanged, and `(old position, new position)` is an edge of `SlideGraph` for `classify cfg`.
+
+    Explicit hypotheses: the element under the head is not `EndScope` (it calls `_abort_flow` on child flows — not
+    covered); on a `MergeHeads` element the head is ACTIVE (a MERGING head becomes INACTIVE and the loop goes on without
+    a move of this head — `slide` on a MERGING head is the merge itself, not a slide); on an `Abort` element the names on
+    the head's catch stack are labels of `CatchPatternFailure` elements of the flow. -/
+theorem slideStep_moves_along_edge (fuel : Nat) (f : FUid) (h : HUid) (s s' : VM) (cfg : FlowCfg) (hd : Head)
+    (nh : List Key)
+    (hcfg : cfgOfInst f s = .ok cfg s)
+    (hhd : (findInst s.ixs.ix f).bind (·.findHead h) = some hd)
+    (hrun : slideStep fuel f h s = .ok (false, nh) s')
+    (hscope : ∀ n, cfg.elements[hd.pos]? ≠ some (.endScope n))
+    (hmerge : ∀ u, cfg.elements[hd.pos]? = some (.merge u) → hd.status = .active)
+    (hcatch : cfg.elements[hd.pos]? = some .abort → CatchNamesOk cfg ((OMap.lookup (f, h) s.r.hx).getD {})) :
+    ∃ hd', (findInst s'.ixs.ix f).bind (·.findHead h) = some hd' ∧ hd'.status = hd.status ∧
+      cfgOfInst f s' = .ok cfg s' ∧ SlideGraph.Edge (classify cfg) hd.pos hd'.pos := by
+  have hc := cfgOf_of_cfgOfInst hcfg
+  have hh : headOf s (f, h) = some hd := hhd
+  by_cases hlt : hd.pos < cfg.elements.size
+  · have hget := elem_get_of_lt cfg hd.pos hlt
+    by_cases hk : (cfg.elements[hd.pos]!).slides = true
+    · have hl := slideStep_lands True fuel f h cfg hd s hc hh hk
+        (fun _ he => hcatch (by rw [hget, he]))
+      rw [hrun] at hl
+      obtain ⟨hc', hd', hh', hst, hT⟩ := hl
+      exact ⟨hd', hh', hst, cfgOfInst_of_cfgOf hc', hT.1 rfl trivial⟩
+    · exfalso
+      have hstop : (false, nh).1 = true := by
+        refine slideStep_fork_merge_stops fuel f h cfg hd s hc hh ?_ (false, nh) s' hrun
+        cases hel : cfg.elements[hd.pos]! with
+        | fork u ls => exact Or.inl ⟨u, ls, rfl⟩
+        | merge u => exact Or.inr ⟨u, rfl, hmerge u (by rw [hget, hel])⟩
+        | endScope n => exact absurd (by rw [hget, hel]) (hscope n)
+        | _ => rw [hel] at hk; exact absurd rfl hk
+      cases hstop
+  · have := slideStep_at_end fuel f h cfg hd s hc hh (Or.inl hlt)
+    rw [this] at hrun
+    cases hrun
+
+/-- **A stopping iteration does not move the head** (sliding element kinds: a wait, an action `send`, `WaitForHeads`
+    without enough heads, the end of the flow). -/
+theorem slideStep_stop_no_move (fuel : Nat) (f : FUid) (h : HUid) (s s' : VM) (cfg : FlowCfg) (hd : Head)
+    (nh : List Key)
+    (hcfg : cfgOfInst f s = .ok cfg s)
+    (hhd : (findInst s.ixs.ix f).bind (·.findHead h) = some hd)
+    (hk : (cfg.elements[hd.pos]!).slides = true)
+    (hrun : slideStep fuel f h s = .ok (true, nh) s') :
+    ∃ hd', (findInst s'.ixs.ix f).bind (·.findHead h) = some hd' ∧ hd'.status = hd.status ∧
+      cfgOfInst f s' = .ok cfg s' ∧ hd'.pos = hd.pos := by
+  have hc := cfgOf_of_cfgOfInst hcfg
+  have hh : headOf s (f, h) = some hd := hhd
+  have hl := slideStep_lands False fuel f h cfg hd s hc hh hk (fun hF => hF.elim)
+  rw [hrun] at hl
+  obtain ⟨hc', hd', hh', hst, hT⟩ := hl
+  exact ⟨hd', hh', hst, cfgOfInst_of_cfgOf hc', hT.2 rfl⟩
+
+/-- **Position after an exception.**  If one iteration of `slide` raises a Python exception while the head is on an
+    element inside its flow (not `ForkHead` / `MergeHeads` / `EndScope`), the head still exists, has the same status and
+    is still on an element inside the flow (it did not move, or the position setter moved it onto a match element whose
+    event-name evaluation raised): `flow_config.elements[head.position]` in the exception handler of
+    `_advance_head_front` cannot raise `IndexError`. -/
+theorem slideStep_error_pos (fuel : Nat) (f : FUid) (h : HUid) (s s' : VM) (cfg : FlowCfg) (hd : Head) (c m : String)
+    (hcfg : cfgOfInst f s = .ok cfg s)
+    (hhd : (findInst s.ixs.ix f).bind (·.findHead h) = some hd)
+    (hlt : hd.pos < cfg.elements.size)
+    (hk : (cfg.elements[hd.pos]!).slides = true)
+    (hrun : slideStep fuel f h s = .error (.py c m) s') :
+    ∃ hd', (findInst s'.ixs.ix f).bind (·.findHead h) = some hd' ∧ hd'.status = hd.status ∧
+      cfgOfInst f s' = .ok cfg s' ∧ hd'.pos < cfg.elements.size := by
+  have hc := cfgOf_of_cfgOfInst hcfg
+  have hh : headOf s (f, h) = some hd := hhd
+  have hl := slideStep_lands False fuel f h cfg hd s hc hh hk (fun hF => hF.elim)
+  rw [hrun] at hl
+  obtain ⟨hc', hd', hh', hst, hp⟩ := hl
+  refine ⟨hd', hh', hst, cfgOfInst_of_cfgOf hc', ?_⟩
+  cases hp with
+  | inl h1 => rw [h1]; exact hlt
+  | inr h2 => exact h2
+
+/-- the frame facts asked for separately: none of these touches the index component -/
+theorem ixs_of_keeps {α : Type} {x : M α} (hx : Keeps x) (s : VM) : (resSt (x s)).ixs = s.ixs := (hx.frame s).ixs
 
 end NemoVerif.CoreVM
